@@ -347,10 +347,8 @@ class EnumGen:
         out = []
         if items:
             out.append('#[strum(%s)]' % ', '.join(items))
-        if e.extra.get('repr_raw'):
-            out.append('#[repr(%s)]' % e.extra['repr_raw'])
-        elif e.repr:
-            out.append('#[repr(%s)]' % e.repr)
+        for a in e.repr_attrs():
+            out.append('#[repr(%s)]' % ', '.join(a))
         for x in e.extra.get('enum_attrs', []):
             out.append(x if self.sp == 'strum' else x.replace('strum::', self.sp + '::'))
         return out
@@ -376,7 +374,7 @@ class EnumGen:
         ds = list(base_derives) + [self.sp_derive(d) for d in e.derives]
         out.append('#[derive(%s)]' % ', '.join(ds))
         out += self.enum_attrs()
-        out.append('pub enum %s%s%s {' % (e.name, self.gdecl, self.gwhere))
+        out.append('%s enum %s%s%s {' % (e.extra.get('vis', 'pub'), e.name, self.gdecl, self.gwhere))
         for v in e.variants:
             out += self.variant_decl(v)
         out.append('}')
@@ -387,7 +385,7 @@ class EnumGen:
         """the enum item alone (attributes + declaration), as handed to a derive macro"""
         e = self.e
         out = self.enum_attrs()
-        out.append('pub enum %s%s%s {' % (e.name, self.gdecl, self.gwhere))
+        out.append('%s enum %s%s%s {' % (e.extra.get('vis', 'pub'), e.name, self.gdecl, self.gwhere))
         for v in e.variants:
             out += self.variant_decl(v)
         out.append('}')
@@ -776,7 +774,7 @@ class EnumGen:
         out = []
         for line in e.extra.get('disc_asserts', []):
             out.append(line.replace('$D', D))
-        raw = e.extra.get('repr_raw') or e.repr
+        raw = ', '.join(h for a in e.repr_attrs() for h in a)
         if raw:
             # reference: a hand-written field-less enum with the same repr, variants and explicit discriminants
             out.append('#[repr(%s)] #[derive(Clone, Copy)] enum RefDiscLayout { %s }' % (raw, ', '.join(
@@ -806,7 +804,7 @@ class EnumGen:
         else:
             out.append('    let pt = "ok".to_string();')
         out += ['    format!("name={} from={} from_ref={} into={} val={} eval={} pt={} size_ok={}", hex(short.as_bytes()), hex(format!("{:?}", f1).as_bytes()), hex(format!("{:?}", f2).as_bytes()), into, (f1 as %s) as i128, ev, pt, %s)'
-                % (R if e.repr else 'isize', ('core::mem::size_of::<%s>() == core::mem::size_of::<RefDiscLayout>() && core::mem::align_of::<%s>() == core::mem::align_of::<RefDiscLayout>()' % (D, D)) if (e.repr or e.extra.get('repr_raw')) else 'true'),
+                % (R if e.repr else 'isize', ('core::mem::size_of::<%s>() == core::mem::size_of::<RefDiscLayout>() && core::mem::align_of::<%s>() == core::mem::align_of::<RefDiscLayout>()' % (D, D)) if e.repr_attrs() else 'true'),
                 '}']
         return out, [('disc', 'op_disc')]
 
